@@ -79,10 +79,12 @@ var c07Leaves = []string{"(lp 0)", "(lp-nt 0)", "(mm)", "(lp-cond 0)", "(lp-and 
 	"(lp-swap-upd 0)", "(lp-swap-apply 0)",
 	// status calls on a future that has finished, repeated, before the program goes on
 	"(let [f (future 1)] (do @f (future-cancel f) (future-cancel f) (future-done? f) (future-cancelled? f) (lp 0)))",
-	"(let [f (future (lp 0))] (do (future-cancel f) (future-cancel f) (try @f (catch e nil)) (future-cancel f) (future-done? f) (lp-sleep 0)))"}
+	"(let [f (future (lp 0))] (do (future-cancel f) (future-cancel f) (try @f (catch e nil)) (future-cancel f) (future-done? f) (lp-sleep 0)))",
+	// an atom that holds itself, swapped through builtins that write it again: every install attempt fails, for ever
+	"(let [sa (atom 0)] (do (reset! sa sa) (swap! sa swap! reset! sa)))"}
 var c07LeafNames = []string{"tail", "nontail", "macro", "cond", "and-or", "thread", "sleep-loop", "sleep", "swap-loop", "apply", "deref-ignoring-body",
 	"tail-noargs", "tail-symbol-arg", "mutual-symbol-arg", "tail-do-atoms", "tail-let-symbol", "tail-if-symbol", "deref-shared-pending",
-	"background-env-writer", "background-env-writer-let", "cancelled-future-deref", "cancelled-future-deref2", "swap-through-builtin-selfread", "swap-selfread-in-map", "status-calls-on-finished-future", "status-calls-on-cancelled-future"}
+	"background-env-writer", "background-env-writer-let", "cancelled-future-deref", "cancelled-future-deref2", "swap-through-builtin-selfread", "swap-selfread-in-map", "status-calls-on-finished-future", "status-calls-on-cancelled-future", "swap-retrying-for-ever"}
 
 // endless returns an expression that never terminates on its own.
 func (g *c07Gen) endless(depth int, allowTry bool) string {
@@ -386,6 +388,10 @@ func (c07) Run(tp *Tape, opt RunOpt) *RunOut {
 			prefixProbe = true
 			g.kinds = append(g.kinds, "handler-probe-after-prefix")
 			src = []string{"(do (lp-n 777777777) " + src + ")", "(let [a (lp-n 777777777)] " + src + ")", "((fn [] (do (lp-n 777777777) " + src + ")))"}[tp.Draw(LaneWork, 3)]
+		} else if tp.Chance(LaneWork, 1, 3) {
+			// ... evaluated by the body of a future: the body's context carries the creator's deadline
+			g.kinds = append(g.kinds, "handler-probe-in-future")
+			src = []string{"@(future " + src + ")", "(let [f (future " + src + ")] (deref f))", "(first (map deref (list (future " + src + "))))"}[tp.Draw(LaneWork, 3)]
 		}
 	}
 	ast := mustRead(src)
